@@ -634,7 +634,7 @@ mod tests {
         let seed = crate::util::miri_seed();
         let mut m = crate::util::test_monitor("C26", seed);
         let mut rng = Rng::derive(seed, 0, 2600);
-        for _ in 0..crate::util::miri_cases(400) {
+        for _ in 0..crate::util::miri_cases(200) {
             random_case(&mut m, &mut rng);
         }
         for td in [0u8, 8, 20, 21] {
